@@ -114,6 +114,10 @@ type Stats struct {
 	StackGuard         int64
 	ChildTasks         int64 // goroutines started by the library (rewritten go statements)
 	ChanBlocked        int64 // channel operations that had to wait
+	Selects            int64 // select statements executed
+	SelectMultiReady   int64 // ... with more than one ready clause (a recorded decision)
+	SelectHandover     int64 // ... completed directly between two selects
+	CondWaits          int64
 }
 
 // Event is one record of the trace ring.
@@ -187,7 +191,8 @@ type World struct {
 
 	chans      []*chanState // channels of library code (side table keyed by channel identity)
 	chanTicket uint64
-	mainParked bool // the main goroutine is parked as a task (waiting for goroutines the library started)
+	selWaiters []*selWaiter // tasks parked in a select, in arrival order
+	mainParked bool         // the main goroutine is parked as a task (waiting for goroutines the library started)
 
 	// Intruder is the interfering call (set by the harness); intruding is true while it runs.
 	Intruder  func()
@@ -416,7 +421,6 @@ func (w *World) BeginCall(id uint32, kind uint32, src *Source, budget int64) {
 
 // EndCall marks the end of the current task's call.  failed says whether the call
 // returned an error or panicked (used by the adversarial pool policy).
-//
 func (w *World) EndCall(failed bool, digest uint32) (steps int64) {
 	w.DrainChildren()
 	return w.endCall(failed, digest)
